@@ -99,19 +99,26 @@ void ed_norm_sim(ed_t *r, const ed_t *t, int n) {
 		fp_inv_sim(a, (const fp_t *)a, n);
 
 		for (int i = 0; i < n; i++) {
+			if (ed_is_infty(t[i])) {
+				/* The neutral element may come as (0 : z : z). */
+				ed_set_infty(r[i]);
+				continue;
+			}
 			fp_copy(r[i]->x, t[i]->x);
 			fp_copy(r[i]->y, t[i]->y);
 #if ED_ADD == EXTND
 			fp_copy(r[i]->t, t[i]->t);
 #endif
-			if (!ed_is_infty(t[i])) {
-				fp_copy(r[i]->z, a[i]);
-			}
+			/* The result can be a different array than the input. */
+			r[i]->coord = t[i]->coord;
+			fp_copy(r[i]->z, a[i]);
 		}
 
 #if ED_ADD == PROJC || ED_ADD == EXTND || !defined(STRIP)
 		for (int i = 0; i < n; i++) {
-			ed_norm_imp(r[i], r[i], 1);
+			if (!ed_is_infty(t[i])) {
+				ed_norm_imp(r[i], r[i], 1);
+			}
 		}
 #endif /* ED_ADD != BASIC*/
 	}
